@@ -4,7 +4,7 @@
 #  patch applies; demo exits 1 with it and 0 without; the repository's baseline tests still pass with it.
 # On success stores /verif/seeded/<PROP>_<mk>/{patch.diff,demo.py,meta.json}.
 P=$1; M=$2
-SRC=/tmp/wt/$P/_out
+SRC=${WTBASE:-/tmp/wt}/$P/_out
 HERE=$(cd "$(dirname "$0")/.." && pwd)
 WT=$(mktemp -d /tmp/confirm.XXXXXX); rmdir $WT
 git -C /repo worktree add -q --detach $WT HEAD || exit 3
@@ -30,14 +30,14 @@ ok=0
 if [ "$clean" = "0" ] && [ "$mut" = "1" ] && echo "$tests" | grep -q '"baseline_missing_with_change": \[\]'; then ok=1; fi
 echo "$P $M: demo_clean_exit=$clean demo_mutant_exit=$mut tests=$tests confirmed=$ok"
 if [ $ok = 1 ]; then
-  D=$HERE/seeded/${P}_$M; mkdir -p $D
+  D=$HERE/seeded/${P}_${ROUND:-}$M; mkdir -p $D
   cp $SRC/$M.diff $D/patch.diff; cp $SRC/${M}_demo.py $D/demo.py
   python3 - "$P" "$M" "$SRC/${M}_meta.txt" "$D/meta.json" "$tests" "$(git -C /repo rev-parse HEAD)" <<'PY'
 import sys, json
 p, m, metaf, out, tests, head = sys.argv[1:7]
 try: txt = open(metaf).read()
 except Exception: txt = ''
-json.dump({'property': p, 'id': p + '_' + m, 'origin': 'independent sub-agent given only the property text and a scratch worktree',
+json.dump({"property": p, "id": out.split("/")[-2], 'origin': 'independent sub-agent given only the property text and a scratch worktree',
            'what_it_needs_to_manifest_and_author_notes': txt, 'confirmed_on_repo_head': head,
            'what_i_ran': ['git apply --check patch.diff (scratch worktree of /repo HEAD)',
                           'demo.py on the clean worktree -> exit 0', 'demo.py with the patch applied -> exit 1',
